@@ -269,6 +269,8 @@ BASE_POINT = {
     'psem': 'MTS',        # D6
     'rsem': 'allmts',     # D7: allmts | allsts | firstmts | firststs
     'fac': 'create',      # D8
+    'extscope': 'global', # D2b: global (one set of externs) | split (every port's interface in its own namespace
+                          #      with its OWN externs T1..T3 of different C++ types; implies distinct interfaces)
     'evorder': 'grouped', # D4b: grouped (ins then outs) | interleaved (in,out,in,out,...) | outsfirst
     'mc': 'none',         # D9: none | p0:<granting index> | p1:<granting index>
     'kind': 'component',  # D10
@@ -277,12 +279,13 @@ BASE_POINT = {
 
 DIMS = {
     'ns': ['', 'N', 'N.M'],
-    'place': ['same', 'parent', 'global', 'sibling'],
+    'place': ['same', 'parent', 'global', 'sibling', 'shadow'],
+    'extscope': ['global', 'split'],
     'spell': ['simple', 'partial', 'full'],
     'nprov': [0, 1, 2], 'nreq': [0, 1, 2], 'ninj': [0, 1],
     'share': [True, False],
     'menu': ['full', 'empty', 'inonly', 'outonly'],
-    'evorder': ['grouped', 'interleaved', 'outsfirst'],
+    'evorder': ['grouped', 'interleaved', 'outsfirst', 'reversed'],
     'names': ['plain', 'caps', 'under'],
     'evnames': ['plain', 'acqfree', 'swapped'],
     'psem': ['MTS', 'STS'],
@@ -318,6 +321,8 @@ def reorder(events, evorder):
     outs = [e for e in events if e[1] == 'out']
     if evorder == 'outsfirst':
         return outs + ins
+    if evorder == 'reversed':
+        return list(reversed(events))     # e.g. the release event declared before the claim event
     if evorder == 'interleaved':
         res = []
         for i in range(max(len(ins), len(outs))):
@@ -359,6 +364,10 @@ def valid_point(pt):
         return False            # a sibling namespace is not on the scope chain
     if pt['place'] == 'sibling' and not ns:
         return False
+    if pt['place'] == 'shadow' and (len(ns) < 2 or pt['spell'] != 'full'):
+        return False            # top-level namespace named like the component's innermost namespace
+    if pt.get('extscope') == 'split' and (pt['nprov'] + pt['nreq'] + pt['ninj'] < 2 or pt['spell'] == 'partial'):
+        return False
     if pt['spell'] == 'partial' and pt['place'] not in ('sibling', 'same') :
         return False
     if pt['spell'] == 'partial' and len(ns) < 2 and pt['place'] == 'same':
@@ -386,11 +395,18 @@ def build_model(pt):
         itf_ns = ns[:-1]
     elif pt['place'] == 'global':
         itf_ns = []
+    elif pt['place'] == 'shadow':
+        itf_ns = [ns[-1]]
     else:
         itf_ns = ns[:-1] + ['Sib']
+    split = pt.get('extscope') == 'split'
+
+    sub_of = {}      # interface name -> sub namespace (extscope=split)
 
     def written(name):
-        fq = itf_ns + [name]
+        fq = itf_ns + ([sub_of[name]] if name in sub_of else []) + [name]
+        if split and pt['spell'] == 'simple':
+            return fq[len(itf_ns):] if itf_ns == ns or not itf_ns else fq    # Sx.Name from a scope that sees Sx
         if pt['spell'] == 'full':
             return fq
         if pt['spell'] == 'partial':
@@ -412,11 +428,21 @@ def build_model(pt):
     def make_itf(name, is_mc):
         events = mc_events(pt['evnames']) if is_mc else menu_events(pt['menu'])
         events = reorder(events, pt.get('evorder', 'grouped'))
-        interfaces.append(['interface', name, [list(t) for t in types], events])
+        node = ['interface', name, [list(t) for t in types], events]
+        if split:
+            sub = f'S{len(sub_of)}'
+            sub_of[name] = sub
+            own = [['extern', t, f'verif::{t}_{sub}'] for t in ('T1', 'T2', 'T3')]
+            interfaces.append(['ns', [sub], own + [node]])
+        else:
+            interfaces.append(node)
+
+    def have_itf(name):
+        return name in sub_of or any(n[0] == 'interface' and n[1] == name for n in interfaces)
 
     ports = []
     nprov, nreq, ninj = pt['nprov'], pt['nreq'], pt['ninj']
-    if pt['share'] and mc_port is None:
+    if pt['share'] and mc_port is None and not split:
         make_itf('IShared', False)
         for i in range(nprov):
             ports.append([pnames[i], written('IShared'), 'provides', False])
@@ -429,23 +455,23 @@ def build_model(pt):
             if mc_port == i:
                 make_itf(f'IMc{i}', True)
                 ports.append([pnames[i], written(f'IMc{i}'), 'provides', False])
-            elif pt['share']:
-                if not any(n[1] == 'IShared' for n in interfaces):
+            elif pt['share'] and not split:
+                if not have_itf('IShared'):
                     make_itf('IShared', False)
                 ports.append([pnames[i], written('IShared'), 'provides', False])
             else:
                 make_itf(f'IP{i}', False)
                 ports.append([pnames[i], written(f'IP{i}'), 'provides', False])
         for i in range(nreq):
-            if pt['share']:
-                if not any(n[1] == 'IShared' for n in interfaces):
+            if pt['share'] and not split:
+                if not have_itf('IShared'):
                     make_itf('IShared', False)
                 ports.append([rnames[i], written('IShared'), 'requires', False])
             else:
                 make_itf(f'IR{i}', False)
                 ports.append([rnames[i], written(f'IR{i}'), 'requires', False])
         for i in range(ninj):
-            if not any(n[1] == 'IInj' for n in interfaces):
+            if not have_itf('IInj'):
                 make_itf('IInj', False)
             ports.append([inames[i], written('IInj'), 'requires', True])
     # put the multi-client port second if p1
@@ -453,7 +479,7 @@ def build_model(pt):
         comp = ['system', 'Comp', ports, [], []]
     else:
         comp = ['component', 'Comp', ports]
-    externs = [['extern', 'T1', T1], ['extern', 'T2', T2], ['extern', 'T3', T3]]
+    externs = [] if split else [['extern', 'T1', T1], ['extern', 'T2', T2], ['extern', 'T3', T3]]
 
     def nest(path, nodes):
         for ident in reversed(path):
@@ -537,7 +563,16 @@ def lab_points(k):
         if key not in seen:
             seen.add(key)
             out.append(pt)
-    for pt in semantics_origin_cross():
+    corners = []
+    for base in (BASE_POINT, mc_base_point()):
+        for delta in ({'ns': 'N.M', 'place': 'shadow', 'spell': 'full'},          # namespace shadowing
+                      {'extscope': 'split', 'nreq': 2},                            # same-named externs per interface
+                      {'extscope': 'split', 'nprov': 2, 'nreq': 2, 'ns': 'N.M'}):
+            pt = dict(base)
+            pt.update(delta)
+            if valid_point(pt):
+                corners.append(pt)
+    for pt in semantics_origin_cross() + corners:
         key = point_id(pt)
         if key not in seen:
             seen.add(key)
